@@ -441,8 +441,15 @@ func New(tree ast.Tree, root string, logger logger.Logger) (*SpokFile, error) {
 func expandGlob(root, pattern string) ([]string, error) {
 	var matches []string
 	ignoreHiddenGlobFn := func(path string, d fs.DirEntry) error {
+		if path == "." {
+			// The root itself, which a pattern like '**' matches, is not a dependency
+			return nil
+		}
 		if strings.HasPrefix(path, ".") {
-			return filepath.SkipDir
+			// Hidden files and directories (and everything below them) are just left out.
+			// Returning SkipDir here would also skip whatever else is left in the directory the
+			// hidden entry sits in, so every match that sorts after it would be lost
+			return nil
 		}
 
 		abs, err := filepath.Abs(filepath.Join(root, path))
